@@ -53,6 +53,10 @@ func (m *Model) UpdateConsumable(consumable *traits.Consumable, opts ...resource
 	if consumable.Name == "" {
 		return nil, status.Error(codes.NotFound, "name not specified")
 	}
+	// The name is always among the written fields: with resource.WithCreateIfAbsent and an update mask that leaves
+	// it out, the consumable would be created with an empty Name under the key consumable.Name, and ListConsumables
+	// would page by that empty Name. For a consumable that exists this writes the name it has.
+	opts = append(opts[:len(opts):len(opts)], resource.WithMoreUpdatePaths("name"), resource.WithMoreWritablePaths("name"))
 	msg, err := m.consumables.Update(consumable.Name, consumable, opts...)
 	return castConsumable(msg, err)
 }
@@ -142,6 +146,9 @@ func (m *Model) UpdateStock(stock *traits.Consumable_Stock, opts ...resource.Wri
 	if stock.Consumable == "" {
 		return nil, status.Error(codes.NotFound, "consumable not specified")
 	}
+	// The consumable name is always among the written fields (see UpdateConsumable): a stock created by an update
+	// whose mask leaves it out would be listed, and paged, under an empty name.
+	opts = append(opts[:len(opts):len(opts)], resource.WithMoreUpdatePaths("consumable"), resource.WithMoreWritablePaths("consumable"))
 	msg, err := m.inventory.Update(stock.Consumable, stock, opts...)
 	return castStock(msg, err)
 }
